@@ -150,9 +150,21 @@ def rto_documented_posterior(c, iface, param, side, m=4, n=3, form='dense'):
         A = c.mat('A', m, n); y = c.vec('y', m); mu = c.vec('mu', n)
         Gn = c.lower('gn', m); Gp = c.lower('gp', n)
         Pn = np.asarray(Gn @ Gn.T + 0.2 * np.eye(m), dtype=float); Pp = np.asarray(Gp @ Gp.T + 0.2 * np.eye(n), dtype=float)   # precisions
-        if form != 'dense':          # diagonal MATRICES (dense or scipy-sparse storage) with unequal entries
+        if form.startswith('banded'):
+            # a BANDED (tridiagonal, positive definite) matrix handed over as `cov` or `prec` in one of scipy's sparse storage formats (DIA is what
+            # scipy.sparse.diags returns): the documented precision is that matrix (prec) or its inverse (cov) - whatever the storage format
+            import scipy.sparse as _sp
+            def band(P):
+                d = np.diag(P) + 0.5; off = 0.3 * np.sqrt(d[:-1] * d[1:])
+                return np.diag(d) + np.diag(off, 1) + np.diag(off, -1)
+            Mn, Mp = band(Pn), band(Pp)
+            Pn, Pp = (Mn, Mp) if param == 'prec' else (np.linalg.inv(Mn), np.linalg.inv(Mp))
+            fmt = form.split('_')[1]
+            store = lambda M: _sp.diags([np.diag(M, -1), np.diag(M), np.diag(M, 1)], [-1, 0, 1], format=fmt)
+        elif form != 'dense':          # diagonal MATRICES (dense or scipy-sparse storage) with unequal entries
             Pn = np.diag(np.diag(Pn)); Pp = np.diag(np.diag(Pp))
         def arg(P):
+            if form.startswith('banded'): return store(Mn if P is Pn else Mp)
             if form != 'dense':
                 import scipy.sparse as _sp
                 d = np.diag(P); v = {'prec': d, 'cov': 1 / d, 'sqrtprec': np.sqrt(d), 'sqrtcov': 1 / np.sqrt(d)}[param]
@@ -327,6 +339,13 @@ def jobs(tier):
                     J.append(Job(f'{tag}.LinearRTO:documented_posterior:{form}_matrix_{param}:sparse_switch={side}', lambda c, i=iface, p=param, sd=side, f=form: rto_documented_posterior(c, i, p, sd, 4, 3, f), 'B',
                                  ['cuqi.distribution._gaussian:get_sqrtprec_from_prec', 'cuqi.distribution._gaussian:get_sqrtprec_from_cov', 'cuqi.distribution._gaussian:get_sqrtprec_from_sqrtcov',
                                   'cuqi.distribution._gaussian:get_sqrtprec_from_sqrtprec'], nnum=4 if q else 20))
+    for iface, tag in (('exp', 'experimental'), ('leg', 'legacy')):
+        for param in ('cov', 'prec'):
+            for form in ('banded_dia', 'banded_csr', 'banded_csc'):
+                for side in ('below', 'above'):
+                    if q and form == 'banded_csc': continue
+                    J.append(Job(f'{tag}.LinearRTO:documented_posterior:{form}_matrix_{param}:sparse_switch={side}', lambda c, i=iface, p=param, sd=side, f=form: rto_documented_posterior(c, i, p, sd, 4, 3, f), 'B',
+                                 ['cuqi.distribution._gaussian:get_sqrtprec_from_prec', 'cuqi.distribution._gaussian:get_sqrtprec_from_cov'], nnum=3 if q else 12))
     for iface, tag in (('exp', 'experimental'), ('leg', 'legacy')):
         for order in ('dense,dense', 'sparse,sparse', 'sparse,dense', 'dense,sparse'):
             J.append(Job(f'{tag}.LinearRTO:JointGaussianSqrtPrec_prior:{order}', lambda c, i=iface, o=order: rto_joint_sqrtprec_prior(c, i, o), 'B',
